@@ -254,7 +254,15 @@ def run(ctx: Ctx) -> None:
     # heavy six-vertex graphs last, so that a cap (if any) cuts only them
     light = [c for c in cases if not (c['part'] == 'graph' and c['n'] == 6)]
     heavy = [c for c in cases if c['part'] == 'graph' and c['n'] == 6]
-    chunks = _chunks(light, 400) + _chunks(heavy, 3000)
+    per_part = [_chunks([c for c in light if c['part'] == part], 400) for part in PART_ORDER]
+    chunks = []
+    for k in range(max(len(x) for x in per_part)):
+        # round-robin over the parts: under a cap every part has a prefix done
+        for x in per_part:
+            if k < len(x):
+                chunks.append(x[k])
+    chunks += _chunks(heavy, 3000)
+    totals = {part: sum(1 for c in cases if c['part'] == part) for part in PART_ORDER}
     import os
     import vf.c20_cases  # noqa: F401  (imported before the pool forks)
     budget = (75 if ctx.quick else 27 * 60) * float(os.environ.get('VERIF_BUDGET_SCALE', '1'))
@@ -275,8 +283,10 @@ def run(ctx: Ctx) -> None:
             if sig not in best or rec[0] < best[sig][0]:
                 best[sig] = rec
     if done < len(cases):
-        ctx.cap(f'time budget of {budget}s reached after {done} of {len(cases)} cases '
-                '(all parts except possibly the tail of the six-vertex graphs and what was in flight)')
+        short = {p: f"{stats.get('cases_' + p, 0)}/{totals[p]}" for p in PART_ORDER
+                 if stats.get('cases_' + p, 0) < totals[p]}
+        ctx.cap(f'time budget of {budget:.0f}s reached after {done} of {len(cases)} cases; parts are served '
+                f'round-robin in canonical order, incomplete parts (done/total): {short}')
 
     ctx.cov['evaluations'] = done
     ctx.cov['distinct_nontrivial'] = stats.get('nontrivial', 0)
